@@ -2,10 +2,13 @@
    ExtrOcamlBasic only; no Extract Constant / Extract Inductive of our own. *)
 From Coq Require Import ExtrOcamlBasic List NArith.
 From Coq.Strings Require Import Byte.
-From GM Require Import Codec.Packet Stream.Stream.
+From GM Require Import Codec.Packet Stream.Stream Stream.EncStream Stream.WsStream Transport.BaseConn.
 Extraction Language OCaml.
 Separate Extraction
   Datatypes.length
   Byte.to_N Byte.of_N N.of_nat N.to_nat
   Packet.packet_eqb Packet.get_id Packet.type_code Packet.type_of_code Packet.ptype_of
-  Stream.detect_impl Stream.dec_read Stream.dec_all Stream.dec_out Stream.pulled Stream.len.
+  Stream.detect_impl Stream.dec_read Stream.dec_all Stream.dec_out Stream.pulled Stream.len
+  EncStream.einit EncStream.enc_step EncStream.enc_run EncStream.wire_bytes
+  WsStream.ws_init WsStream.ws_read WsStream.ws_read_all
+  BaseConn.cinit BaseConn.cn_step BaseConn.cn_run BaseConn.cn_wire BaseConn.log_bytes.
